@@ -1,7 +1,7 @@
 // ---- shared prelude (vx): mechanical stand-ins for macros that have no run-time meaning for the proofs ----
 // Logging macros expand to nothing: identical to a disabled log level (arguments are not evaluated).
 #[allow(unused_macros)]
-macro_rules! __vx_nop { ($($t:tt)*) => {}; }
+macro_rules! __vx_nop { ($($t:tt)*) => { () }; }
 #[allow(unused_imports)]
 pub mod log {
     pub(crate) use __vx_nop as trace;
